@@ -284,11 +284,14 @@ def subj_lrucache(mx, ttl, threadsafe=False):
     from clematis.engine.cache import LRUCache
 
     ops = [("set", k, v) for k in KEYS for v in (0, 1)] + [("get", k) for k in KEYS] + [("get2", k) for k in KEYS] + \
-          [("contains", k) for k in KEYS] + [("items",), ("invalidate",), ("tick", 1), ("tick", max(1, ttl)), ("tick", ttl + 1)]
+          [("contains", k) for k in KEYS] + [("items",), ("invalidate",), ("tick", 1), ("tick", max(1, ttl)), ("tick", ttl + 1)] + \
+          ([("tick", 1000)] if ttl == 0 else [])  # ttl 0 = no expiry, however far the injected clock moves
 
     def make():
         clk = Clock()
-        return LRUCache(max_entries=mx, ttl_s=ttl, time_fn=clk), MNS(mx, ttl, clk), clk
+        # the documented constructor aliases, each given explicitly (an explicit 0 is a setting, not "unset")
+        kw = [dict(max_entries=mx, ttl_s=ttl), dict(capacity=mx, ttl=ttl), dict(max_entries=mx, ttl_sec=ttl), dict(capacity=mx, max_entries=777, ttl=ttl, ttl_s=33)][(mx + ttl) % 4]
+        return LRUCache(time_fn=clk, **kw), MNS(mx, ttl, clk), clk
 
     def apply(r, m, clk, op):
         if op[0] == "set":
